@@ -1,10 +1,14 @@
 #!/bin/bash
-# try_seed.sh <patch.diff> <Cxx> : apply a seeded patch to /repo, run ./check <Cxx>, undo. (never commits)
+# try_seed.sh <patch.diff> <Cxx> : apply a seeded patch to /repo (as the battery does: patch_current.diff if present, patch -p1 --fuzz=3),
+# run ./check <Cxx>, undo. Never commits; /repo is restored with `git reset --hard HEAD` on every exit path.
 set -u
 P=$(readlink -f "$1"); ID=$2
-cd /repo && git diff --quiet || { echo "/repo dirty, refusing"; exit 2; }
-git -C /repo apply "$P" || { git -C /repo apply --3way "$P" || { echo "patch does not apply"; exit 2; }; }
+[ -f "$(dirname $P)/patch_current.diff" ] && [ "$(basename $P)" = "patch.diff" ] && P=$(dirname $P)/patch_current.diff
+cd /repo && [ -z "$(git status --porcelain)" ] || { echo "/repo dirty, refusing"; exit 2; }
+restore() { git -C /repo reset -q --hard HEAD; git -C /repo clean -fdq -e target; }
+if ! patch -p1 --fuzz=3 -s -i "$P" >/dev/null 2>&1; then restore; echo "patch does not apply"; exit 2; fi
+find /repo/crates -name "*.orig" -delete 2>/dev/null
 cd /verif && VERIF_EVIDENCE_DIR=${TMPDIR:-/tmp}/verif-try-evidence ./check $ID; RC=$?
-git -C /repo checkout -- . ; git -C /repo reset -q
+restore
 echo "check rc=$RC"
 exit $RC
